@@ -31,6 +31,23 @@ def run(chk):
         chk.account(scen_iq, res, 'E1-detsched')
         chk.collect_monitors(res, {'C17'}, keyfn)
         chk.validate('iterq', scen_iq, res)
+    if chk.corr_breaks:
+        # recogniser: are the runs the repaired model rejects runs of the model of the pinned code?
+        brk = [b for b in chk.corr_breaks if b.get('events') is not None][:300]
+        lines = []
+        for k, b in enumerate(brk):
+            case = dict(b['case'], legacy_model=True)
+            res = dict(events=[tuple(e) for e in b['events']], final=None, fine=any(e[0] == 'full' for e in b['events']))
+            lines += scen_iq.model_lines(k, case, res)
+        try:
+            out = core.run_driver('iterq', lines, timeout=120)
+        except Exception as e:  # noqa  (the recogniser is informative only)
+            out = []
+            chk.notes.append(f'legacy recogniser did not finish: {e!r}')
+        nleg = sum(1 for l in out if l.startswith('ok'))
+        chk.notes.append(f'{nleg} of {len(brk)} runs rejected by the model are accepted (as prefixes) by Legacy/IterQueue.lean: '
+                         'the token hand-over runs without the lock, i.e. defect F14 (two consumers both add the extra marker)')
+        print(f'[C17] recogniser: {nleg}/{len(brk)} rejected traces are runs of the legacy model (F14: no _lids_lock)')
     chk.cov['rule'] = ('cases = random (m, n in 1..3, rounds 1..3, data-queue bound in {unbounded,1,2,3,5}, values per '
                        'supplier and round 0..3 incl. duplicate values, with/without stop event, stop request after a '
                        'generated number of scheduling points / virtual seconds with suppliers that never end or consumers '
